@@ -26,8 +26,8 @@ func TestShapes(t *testing.T) {
 	Tables(false, false, func(any) bool { full++; return true })
 	Tables(false, true, func(any) bool { nested++; return true })
 	// object rows: 2 rows 4+16+64 (the 16+64 tables with two or more columns once
-	// more under quoted column names), 3 rows 8+64+512; array rows: 4+9+16, 8+27+64
-	wantFull := (84 + 80 + 584 + 29 + 99) * len(TableCellKinds)
+	// more under quoted and once more under prefixed column names), 3 rows 8+64+512; array rows: 4+9+16, 8+27+64
+	wantFull := (84 + 80 + 80 + 584 + 29 + 99) * len(TableCellKinds)
 	wantSmall := wantFull - (512+64)*len(TableCellKinds)
 	if full != wantFull || small != wantSmall || nested != 2*wantFull {
 		t.Fatalf("tables %d %d %d want %d %d", small, full, nested, wantSmall, wantFull)
